@@ -86,6 +86,11 @@ class Code3(Code2):
             self.check()
         return
 
+    # Line increments are signed bytes from 3.6 on. This class also serves
+    # 3.0..3.5 where they are unsigned, so decreasing line numbers are
+    # written only by a subclass that knows that its table is signed.
+    lnotab_signed = False
+
     def encode_lineno_tab(self):
         co_lnotab = b""
 
@@ -94,20 +99,27 @@ class Code3(Code2):
         for offset, line_number in self.co_lnotab:
             offset_diff = offset - prev_offset
             line_diff = line_number - prev_line_number
+            if line_diff < 0 and not self.lnotab_signed:
+                # FIXME: should warn about dropping off a line number
+                continue
             prev_offset = offset
             prev_line_number = line_number
             while offset_diff >= 256:
                 co_lnotab += bytearray([255, 0])
                 offset_diff -= 255
             # The address increment goes into the first entry; the rest of
-            # the line increment follows in (0, n) entries.
-            while line_diff >= 256:
-                co_lnotab += bytearray([offset_diff, 255])
+            # the line increment follows in (0, n) entries. An increment
+            # above 127 would be read as a decrement by 3.6+, while 127
+            # means the same whether or not the table is signed.
+            while line_diff > 127:
+                co_lnotab += bytearray([offset_diff, 127])
                 offset_diff = 0
-                line_diff -= 255
-            if 0 <= line_diff <= 256:
-                # FIXME: should warn about dropping off a line number
-                co_lnotab += bytearray([offset_diff, line_diff])
+                line_diff -= 127
+            while line_diff < -128:
+                co_lnotab += bytearray([offset_diff, 0x80])
+                offset_diff = 0
+                line_diff += 128
+            co_lnotab += bytearray([offset_diff, line_diff & 0xFF])
 
         self.co_lnotab = co_lnotab
 
